@@ -32,9 +32,10 @@ const (
 
 // AppDB is responsible for storing basic information about app state on disk
 type AppDB struct {
-	db db.DB
-	WG sync.WaitGroup
-	mu sync.Mutex
+	db    db.DB
+	batch db.Batch
+	WG    sync.WaitGroup
+	mu    sync.Mutex
 
 	store   tree.MTree
 	stateDB db.DB
@@ -52,6 +53,32 @@ type AppDB struct {
 
 	isDirtyPrice bool
 	price        *TimePrice
+}
+
+// StartBatch makes the following record writes accumulate in one batch until WriteBatch,
+// so that a block's application records reach the disk together or not at all.
+func (appDB *AppDB) StartBatch() {
+	appDB.batch = appDB.db.NewBatch()
+}
+
+// WriteBatch atomically writes the records collected since StartBatch, panics on error
+func (appDB *AppDB) WriteBatch() {
+	batch := appDB.batch
+	appDB.batch = nil
+	if batch == nil {
+		return
+	}
+	if err := batch.WriteSync(); err != nil {
+		panic(err)
+	}
+	_ = batch.Close()
+}
+
+func (appDB *AppDB) set(key, value []byte) error {
+	if appDB.batch != nil {
+		return appDB.batch.Set(key, value)
+	}
+	return appDB.db.Set(key, value)
 }
 
 // Close closes db connection, panics on error
@@ -87,7 +114,7 @@ func (appDB *AppDB) GetLastBlockHash() []byte {
 func (appDB *AppDB) SetLastBlockHash(hash []byte) {
 	appDB.WG.Wait()
 
-	if err := appDB.db.Set([]byte(hashPath), hash); err != nil {
+	if err := appDB.set([]byte(hashPath), hash); err != nil {
 		panic(err)
 	}
 }
@@ -122,7 +149,7 @@ func (appDB *AppDB) SetLastHeight(height uint64) {
 
 	appDB.WG.Wait()
 
-	if err := appDB.db.Set([]byte(heightPath), h); err != nil {
+	if err := appDB.set([]byte(heightPath), h); err != nil {
 		panic(err)
 	}
 
@@ -217,7 +244,7 @@ func (appDB *AppDB) FlushValidators() {
 
 	appDB.WG.Wait()
 
-	if err := appDB.db.Set([]byte(validatorsPath), data); err != nil {
+	if err := appDB.set([]byte(validatorsPath), data); err != nil {
 		panic(err)
 	}
 	appDB.validators = nil
@@ -297,7 +324,7 @@ func (appDB *AppDB) SaveBlocksTime() {
 
 	appDB.WG.Wait()
 
-	if err := appDB.db.Set([]byte(blocksTimePath), data); err != nil {
+	if err := appDB.set([]byte(blocksTimePath), data); err != nil {
 		panic(err)
 	}
 }
@@ -378,7 +405,7 @@ func (appDB *AppDB) SaveVersions() {
 
 	appDB.WG.Wait()
 
-	if err := appDB.db.Set([]byte(versionsPath), data); err != nil {
+	if err := appDB.set([]byte(versionsPath), data); err != nil {
 		panic(err)
 	}
 
@@ -420,7 +447,7 @@ func (appDB *AppDB) SaveEmission() {
 	}
 
 	appDB.WG.Wait()
-	if err := appDB.db.Set([]byte(emissionPath), appDB.emission.Bytes()); err != nil {
+	if err := appDB.set([]byte(emissionPath), appDB.emission.Bytes()); err != nil {
 		panic(err)
 	}
 }
@@ -565,7 +592,7 @@ func (appDB *AppDB) SavePrice() {
 		panic(err)
 	}
 
-	err = appDB.db.Set([]byte(pricePath), bytes)
+	err = appDB.set([]byte(pricePath), bytes)
 	if err != nil {
 		panic(err)
 	}
